@@ -4,7 +4,7 @@ import numpy as np
 import queuecore as qc
 
 PROP = 'C02'
-REQUIRES = ['Queue.Model']
+REQUIRES = ['Queue.Model', 'Queue.Spec']
 RULE = ('all seven queue classes x stimulus sets (1-4 stimuli; array / FixedWaveform / Cos2-gated-tone sources; lengths 0..12; trials 1..4; '
         'delays 0..5 samples, scalar or per-trial lists) x rates {1000, 25000, 97656.25, 195312.5} x start offsets {0, k/fs}; request sequences: '
         'every composition of totals <= 7 (quick: for 3 configs; thorough: 12), requests ending exactly at / one before / one after every '
@@ -85,12 +85,23 @@ def impl(case):
     return qc.run_impl(case)
 
 
+def _tests(args, case):
+    from vlib import zlist, zlit
+    ns = [o[1] for o in case['ops']]
+    t = [f"timeline_test {args} {zlist(ns)}"]
+    for i in range(min(len(ns) - 1, 3)):
+        t.append(f"split_test {args} {zlist(ns[:i])} {zlit(ns[i])} {zlit(ns[i + 1])}")
+    return t
+
+
 def expr(case, res):
-    return qc.coq_expr(case, res)
+    e, n = qc.coq_expr(case, res, _tests)
+    case['_ntests'] = n
+    return e
 
 
 def agree(case, res, mo):
-    return qc.compare(case, res, mo)
+    return qc.compare(case, res, mo, case.get('_ntests', 0))
 
 
 def nontrivial(case, res):
